@@ -716,7 +716,7 @@ func (v *Verifier) genPair(p *Pair, combo []int64, mustWrap map[string]bool) *Ex
 				continue
 			}
 			for k := range lv.L {
-				if lv.L[k] != rv.L[k] && isAtom(rv.L[k]) {
+				if lv.L[k] != rv.L[k] {
 					x.addSubst(rv.L[k], lv.L[k])
 				}
 			}
